@@ -275,4 +275,6 @@ def edif_dangling(text):
                 # a bit that the port does not have: beyond its width, or counted from the wrong end
                 out.append(("dangling:member-index-beyond-width", i + 2, join_edif(toks[:i + 2] + ["999"] + toks[i + 3:])))
                 out.append(("dangling:member-index-negative", i + 2, join_edif(toks[:i + 2] + ["-1"] + toks[i + 3:])))
+                # a member of a two-dimensional array: arrays of arrays are not read
+                out.append(("unsupported:member-with-two-indices", i + 2, join_edif(toks[:i + 3] + [toks[i + 2]] + toks[i + 3:])))
     return out
